@@ -609,3 +609,184 @@ func TestC20(t *testing.T) {
 	defer ev.Flush()
 	rapid.Check(t, c20prop(ev))
 }
+
+// TestC20Acked: the other half of "never the loss of a change that had already been acknowledged to
+// a client".  Changes are made through the protocol; at the instant the client holds the reply
+// (quiescence, no time has passed since) the files are copied, as a crash at that instant would
+// leave them, and fresh stores loaded from the copy must hold the change.
+func TestC20Acked(t *testing.T) {
+	ev := evid.New("C20", "TestC20Acked")
+	defer ev.Flush()
+	rapid.Check(t, func(rt *rapid.T) {
+		n := rapid.IntRange(1, 6).Draw(rt, "nchanges")
+		kinds := rapid.SliceOfN(rapid.SampledFrom([]string{"post-board", "ban-temp", "ban-perm", "new-user", "set-user", "update-user-rename", "delete-user", "news-category", "news-post", "news-delete-article"}), n, n).Draw(rt, "kinds")
+		inWorld(rt, hlsim.Options{Agreement: "a", Board: "old board\r", Accounts: []hlsim.AccountSpec{acct("admin", "Admin", "adminpw", allAccess), acct("victim", "Victim", "vpw", hlref.Access{}), acct("spare", "Spare", "spw", hlref.Access{})}}, func(rt *rapid.T, w *hlsim.World) {
+			admin := loginAs(rt, w, "10.20.0.1:1", "admin", "adminpw", "admin")
+			crashCopy := func() string {
+				d, err := os.MkdirTemp(worldBase(), "c20acked-")
+				must(err)
+				must(copyDir(w.Cfg, d))
+				return d
+			}
+			cats, posted, victims := 0, 0, 0
+			for i, k := range kinds {
+				var r *hlref.Tran
+				var missing func(dir string) string
+				switch k {
+				case "post-board":
+					text := fmt.Sprintf("acknowledged post %d", i)
+					r = admin.Request(hlref.TranOldPostNews, sfld(hlref.FData, text))
+					missing = func(dir string) string {
+						b, _ := os.ReadFile(filepath.Join(dir, "MessageBoard.txt"))
+						if !bytes.Contains(b, []byte(text)) {
+							return "the post is not in MessageBoard.txt"
+						}
+						return ""
+					}
+				case "ban-temp", "ban-perm":
+					victims++
+					addr := fmt.Sprintf("10.20.1.%d", victims)
+					v := loginAs(rt, w, addr+":7", "victim", "vpw", "victim")
+					us, _ := admin.UserList()
+					id := 0
+					for _, u := range us {
+						if u.ID > id {
+							id = u.ID
+						}
+					}
+					_ = v
+					opt := map[string]int{"ban-temp": 1, "ban-perm": 2}[k]
+					r = admin.Request(hlref.TranDisconnectUser, fld(hlref.FUserID, hlref.BE16(id)), fld(hlref.FOptions, hlref.BE16(opt)))
+					missing = func(dir string) string {
+						bf, err := verifhooks.NewBanFile(filepath.Join(dir, "Banlist.yaml"))
+						if err != nil {
+							return "the ban list does not load: " + err.Error()
+						}
+						if is, _ := bf.IsBanned(addr); !is {
+							return "the ban of " + addr + " is not in Banlist.yaml"
+						}
+						return ""
+					}
+				case "new-user":
+					login := fmt.Sprintf("made%d", i)
+					r = admin.Request(hlref.TranNewUser, fld(hlref.FUserLogin, hlref.Obfuscate([]byte(login))), sfld(hlref.FUserName, "Made"), fld(hlref.FUserPassword, hlref.Obfuscate([]byte("p"))), fld(hlref.FUserAccess, make([]byte, 8)))
+					missing = func(dir string) string {
+						am, err := verifhooks.NewYAMLAccountManager(filepath.Join(dir, "Users"))
+						if err != nil {
+							return "accounts do not load: " + err.Error()
+						}
+						if am.Get(login) == nil {
+							return "the new account " + login + " is not on disk"
+						}
+						return ""
+					}
+				case "set-user":
+					name := fmt.Sprintf("Renamed %d", i)
+					r = admin.Request(hlref.TranSetUser, fld(hlref.FUserLogin, hlref.Obfuscate([]byte("spare"))), sfld(hlref.FUserName, name), fld(hlref.FUserAccess, make([]byte, 8)), fld(hlref.FUserPassword, []byte{0}))
+					missing = func(dir string) string {
+						am, err := verifhooks.NewYAMLAccountManager(filepath.Join(dir, "Users"))
+						if err != nil {
+							return "accounts do not load: " + err.Error()
+						}
+						if a := am.Get("spare"); a == nil || a.Name != name {
+							return "the edited account does not carry its new name on disk"
+						}
+						return ""
+					}
+				case "update-user-rename", "delete-user":
+					login := fmt.Sprintf("tmp%d", i)
+					if !okReply(admin.Request(hlref.TranNewUser, fld(hlref.FUserLogin, hlref.Obfuscate([]byte(login))), sfld(hlref.FUserName, "T"), fld(hlref.FUserPassword, hlref.Obfuscate([]byte("p"))), fld(hlref.FUserAccess, make([]byte, 8)))) {
+						rt.Fatalf("harness: new-user")
+					}
+					if k == "delete-user" {
+						r = admin.Request(hlref.TranDeleteUser, fld(hlref.FUserLogin, hlref.Obfuscate([]byte(login))))
+						missing = func(dir string) string {
+							am, err := verifhooks.NewYAMLAccountManager(filepath.Join(dir, "Users"))
+							if err != nil {
+								return "accounts do not load: " + err.Error()
+							}
+							if am.Get(login) != nil {
+								return "the deleted account " + login + " is still on disk"
+							}
+							return ""
+						}
+					} else {
+						nl := login + "x"
+						r = admin.Request(hlref.TranUpdateUser, fld(hlref.FData, subFields(fld(hlref.FData, hlref.Obfuscate([]byte(login))), fld(hlref.FUserLogin, hlref.Obfuscate([]byte(nl))), sfld(hlref.FUserName, "T"), fld(hlref.FUserAccess, make([]byte, 8)), fld(hlref.FUserPassword, []byte{0}))))
+						missing = func(dir string) string {
+							am, err := verifhooks.NewYAMLAccountManager(filepath.Join(dir, "Users"))
+							if err != nil {
+								return "accounts do not load: " + err.Error()
+							}
+							if am.Get(nl) == nil || am.Get(login) != nil {
+								return fmt.Sprintf("after the acknowledged rename %s -> %s the disk has new=%v old=%v", login, nl, am.Get(nl) != nil, am.Get(login) != nil)
+							}
+							return ""
+						}
+					}
+				case "news-category", "news-post", "news-delete-article":
+					if cats == 0 || k == "news-category" {
+						cats++
+						name := fmt.Sprintf("Cat%d", cats)
+						r = admin.Request(hlref.TranNewNewsCat, sfld(hlref.FNewsCatName, name))
+						missing = func(dir string) string {
+							tn, err := verifhooks.NewThreadedNewsYAML(filepath.Join(dir, "ThreadedNews.yaml"))
+							if err != nil {
+								return "news does not load: " + err.Error()
+							}
+							if _, ok := tn.ThreadedNews.Categories[name]; !ok {
+								return "the new category is not in the news file"
+							}
+							return ""
+						}
+						break
+					}
+					if k == "news-post" || posted == 0 {
+						posted++
+						title := fmt.Sprintf("acknowledged article %d", i)
+						r = admin.Request(hlref.TranPostNewsArt, newsPath([]string{"Cat1"}), fld(hlref.FNewsArtID, hlref.BE32(0)), sfld(hlref.FNewsArtTitle, title), sfld(hlref.FNewsArtDataFlav, "text/plain"), sfld(hlref.FNewsArtData, "body"))
+						missing = func(dir string) string {
+							tn, err := verifhooks.NewThreadedNewsYAML(filepath.Join(dir, "ThreadedNews.yaml"))
+							if err != nil {
+								return "news does not load: " + err.Error()
+							}
+							for _, a := range tn.ThreadedNews.Categories["Cat1"].Articles {
+								if a.Title == title {
+									return ""
+								}
+							}
+							return "the posted article is not in the news file"
+						}
+						break
+					}
+					id := posted
+					posted = 0
+					r = admin.Request(hlref.TranDelNewsArt, newsPath([]string{"Cat1"}), fld(hlref.FNewsArtID, hlref.BE32(id)))
+					missing = func(dir string) string {
+						tn, err := verifhooks.NewThreadedNewsYAML(filepath.Join(dir, "ThreadedNews.yaml"))
+						if err != nil {
+							return "news does not load: " + err.Error()
+						}
+						if _, ok := tn.ThreadedNews.Categories["Cat1"].Articles[uint32(id)]; ok {
+							return "the deleted article is still in the news file"
+						}
+						return ""
+					}
+				}
+				if !okReply(r) {
+					rt.Fatalf("harness: change %d (%s) refused: %s", i, k, replySummary(r))
+				}
+				// the client holds the acknowledgement; this is what a crash right now leaves on disk
+				d := crashCopy()
+				miss := missing(d)
+				os.RemoveAll(d)
+				if miss != "" {
+					rt.Fatalf("change %d (%s of %v) was acknowledged to the client, but a crash at that instant loses it: %s", i, k, kinds, miss)
+				}
+				settle(3 * time.Second)
+				admin.TakeInbox()
+			}
+		})
+		ev.Case(evid.Hash("acked", fmt.Sprint(kinds)), true, "acknowledged-then-crash", fmt.Sprintf("changes:%d", n))
+	})
+}
